@@ -18,7 +18,7 @@ class C05(Prop):
     LONG_BIAS = 0.25
     BACKENDS = ("file", "file", "memory")
     WEIGHTS = {"page": 5, "pages": 3, "links": 2, "batch": 2, "again": 1, "create": 4, "delete": 1, "addprefix": 4,
-               "rmprefix": 1, "move": 2, "rule": 2, "unrule": 1, "reopen": 1, "clear": 1}
+               "rmprefix": 1, "move": 2, "rule": 2, "unrule": 1, "reopen": 1, "clear": 1, "recreate": 1}
     QUICK = (40, 20)
     THOROUGH = (200, 40)
     ASSUMPTIONS = ["relational oracle: page enumeration, resolution and prefix enumeration of the same index are the reference"]
